@@ -39,6 +39,9 @@ GenCall ==
     \E b \in (IF op \in BinOps THEN Operands(Len(hist)) ELSE {[k |-> "none"]}) :
         LET st == [op |-> op, a |-> a, b |-> b, o |-> o, new |-> nw, k |-> IF op = "ScaleUp" THEN 1 + (k % 3) ELSE k] IN
         /\ TypeFits(b) /\ RealFits(b)
+        \* the level of a rotation by 0 into a receiver below the input is left open (plain copy or minimum, see Call):
+        \* programs whose continuation would depend on it are not generated
+        /\ ((op = "Rotate" /\ k = 0 /\ ~nw /\ reg[o].ok) => reg[o].lvl >= reg[a].lvl)
         /\ \E d \in 1..2 : \E e \in BOOLEAN : Call(st, [deg |-> d, err |-> e, lvl |-> 0 - 1]) /\ (e \/ d = CHOOSE x \in Res(st).degs : \A y \in Res(st).degs : x <= y)
         /\ InBounds'
         /\ hist' = Append(hist, st)
